@@ -646,9 +646,10 @@ class ClassGen:
                 self.gen_method(exp, outer_lines, ind, name, access, k, key)
             elif r < 0.62:
                 if rng.random() < 0.5:
-                    outer_lines.append(ind + "friend class F%d;" % k); exp["friends"].append(("cls", "F%d" % k))
+                    fk = rng.choice(["class", "struct", "enum", "union"])
+                    outer_lines.append(ind + "friend %s F%d;" % (fk, k)); exp["friends"].append(("cls", "F%d" % k, access))
                 else:
-                    outer_lines.append(ind + "friend void ff%d(int);" % k); exp["friends"].append(("fn", "ff%d" % k))
+                    outer_lines.append(ind + "friend void ff%d(int);" % k); exp["friends"].append(("fn", "ff%d" % k, access))
             elif r < 0.68:
                 outer_lines.append(ind + "typedef int t%d;" % k); exp["typedefs"].append(("t%d" % k, access))
             elif r < 0.74:
@@ -834,7 +835,8 @@ def compare_class(cs, exp, path, anon_seen):
         got = [getter(x) for x in getattr(cs, fld)]
         if got != exp[fld]:
             return "%s: %s %r, written %r" % (where, fld, got, exp[fld])
-    gotf = [("cls", f.cls.typename.segments[-1].name) if f.cls else ("fn", f.fn.name.segments[-1].name) for f in cs.friends]
+    # a friend declaration carries the access level in force where it is written, like every other member
+    gotf = [("cls", f.cls.typename.segments[-1].name, f.cls.access) if f.cls else ("fn", f.fn.name.segments[-1].name, f.fn.access) for f in cs.friends]
     if gotf != exp["friends"]:
         return "%s: friends %r, written %r" % (where, gotf, exp["friends"])
     if len(cs.classes) != len(exp["classes"]):
